@@ -7,6 +7,7 @@ mod c06;
 mod c09;
 mod c10;
 mod c13;
+mod c17;
 mod smoke;
 
 fn main() {
@@ -17,6 +18,7 @@ fn main() {
     match args.prop.to_lowercase().as_str() {
         "c10" => c10::run(&args, &mut rep),
         "c13" => c13::run(&args, &mut rep),
+        "c17" => c17::run(&args, &mut rep),
         "smoke" => smoke::run(&args, &mut rep),
         "c02" => c02::run(&args, &mut rep),
         "c03" => c03::run(&args, &mut rep),
